@@ -6,6 +6,7 @@ from hypothesis import strategies as st
 from .. import build, gen, procs
 from ..core import Discard, Part, Violation, call, is_raised, relerr, require
 from ..observe import EvaluationCap, Trace
+from ..solver import legit_exit_flip
 from ..refmodels import to_molar, to_weight
 
 ID = "C07"
@@ -79,8 +80,15 @@ def check_entry(case):
                                 nm, mdl, i + 1, float(ga[i]), float(gb[i]))
         ok_points = []
         for k in range(len(ws)):
-            a, e1 = _traced(pv, lambda: pv.calculate_partial_fluxes(composition=cw[k], **kw))
-            b, e2 = _traced(pv, lambda: pv.calculate_partial_fluxes(composition=cm[k], **kw))
+            with Trace(pv, cap=60000, keep=True) as tra:
+                a = call(pv.calculate_partial_fluxes, composition=cw[k], **kw)
+            with Trace(pv, cap=60000, keep=True) as trb:
+                b = call(pv.calculate_partial_fluxes, composition=cm[k], **kw)
+            e1, e2 = list(tra.per_call), list(trb.per_call)
+            if not is_raised(a) and not is_raised(b) and e1 != e2:
+                require(legit_exit_flip(tra.evals, trb.evals, prec),
+                        "the flux iteration used %r evaluations for the mass-fraction input and %r for the equivalent mole-fraction input "
+                        "although the step size was not at a rounding tie with the precision", e1, e2)
             if is_raised(a) or is_raised(b) or e1 != e2:
                 ok_points.append(False)
                 continue
